@@ -11,6 +11,10 @@ namespace Jrpc.Facts
 theorem skel_handleCall_shape :
     Generated.skel_handleCall = [
   "if c.handler == nil",
+  "  if frame.ID != nil",
+  "    epoch := atomic.LoadUint64(&c.connEpoch)",
+  "    rpcError(func{…}, &request{Jsonrpc: frame.Jsonrpc, ID: frame.ID, Method: frame.Method}, rpcMethodNotFound, fmt.Errorf(\"method '%s' not found\", frame.Method))",
+  "      c.nextWriter(epoch, cb)",
   "  return",
   "req := request{ Jsonrpc: frame.Jsonrpc, ID: frame.ID, Meta: frame.Meta, Method: frame.Method, Params: frame.Params, }",
   "ctx, cancel := context.WithCancel(ctx)",
